@@ -2907,12 +2907,17 @@ class ChannelManager:
         channel.on_credits(credit.credits)
 
     def on_channel_closed(self, channel: ClassicChannel | LeCreditBasedChannel) -> None:
-        if classic_connection_channels := self.channels.get(channel.connection.handle):
-            classic_connection_channels.pop(channel.source_cid, None)
-        elif le_connection_channels := self.le_coc_channels.get(
+        # Only remove the entries that are this channel's: its CIDs may have been
+        # reused by another channel if it was already removed from a table.
+        if connection_channels := self.channels.get(channel.connection.handle):
+            if connection_channels.get(channel.source_cid) is channel:
+                del connection_channels[channel.source_cid]
+        # LE CoC channels are also filed by destination CID
+        if le_connection_channels := self.le_coc_channels.get(
             channel.connection.handle
         ):
-            le_connection_channels.pop(channel.destination_cid, None)
+            if le_connection_channels.get(channel.destination_cid) is channel:
+                del le_connection_channels[channel.destination_cid]
 
     async def create_le_credit_based_channel(
         self,
